@@ -21,15 +21,22 @@
 (* Mutants: RevSubsume (subsumption test reversed in contains/refine),     *)
 (* NoFinalCheck (forget to test new pairs), UnionChildren (unite the       *)
 (* macro-states of a child instead of choosing one - the mistake the BDD   *)
-(* variant tree_incl_up.hh made).                                          *)
+(* variant tree_incl_up.hh made), FirstPosOnly (a rule with a repeated     *)
+(* child is expanded only for the first position of the picked state).     *)
 (***************************************************************************)
 EXTENDS TA, TLC, Json, FiniteSetsExt
-CONSTANTS MaxR, AlphaName, RevSubsume, NoFinalCheck, UnionChildren
+CONSTANTS MaxR, AlphaName, RevSubsume, NoFinalCheck, UnionChildren, FirstPosOnly, BFamily
 Alpha == IF AlphaName = "abf" THEN {<<"a", 0>>, <<"b", 0>>, <<"f", 2>>}
          ELSE {<<"a", 0>>, <<"b", 0>>, <<"g", 1>>, <<"f", 2>>}
 Tuples(Q, n) == IF n = 0 THEN {<<>>} ELSE IF n = 1 THEN {<<q>> : q \in Q} ELSE {<<p, q>> : p \in Q, q \in Q}
 AllRules(Q) == UNION {{<<s[1], k, q>> : k \in Tuples(Q, s[2]), q \in Q} : s \in Alpha}
 Auts(Q) == {[fin |-> F, rules |-> R] : F \in SUBSET Q, R \in UNION {kSubset(k, AllRules(Q)) : k \in 0..MaxR}}
+
+\* the universe of B: "all2" = every automaton over states {2,3} with <= MaxR rules; "leaf3" = three states, the leaf rules
+\* a -> 10, b -> 11 fixed, any <= 4 binary rules into the only final state 12 (5-6 rules: the shapes a 2-state B cannot have)
+BUniverse == IF BFamily = "all2" THEN Auts({2, 3})
+             ELSE {[fin |-> {12}, rules |-> {<<"a", <<>>, 10>>, <<"b", <<>>, 11>>} \cup R] :
+                     R \in UNION {kSubset(k, {<<"f", <<p, q>>, 12>> : p \in {10, 11, 12}, q \in {10, 11, 12}}) : k \in 0..4}}
 
 VARIABLES A, B, processed, next, cur, todo, verdict
 vars == <<A, B, processed, next, cur, todo, verdict>>
@@ -44,7 +51,7 @@ LeafPairs(A0, B0) == {<<r[3], PostB(B0, r[1], <<>>)>> : r \in {x \in A0.rules : 
 Bad(X, Y, p) == p[1] \in X.fin /\ p[2] \cap Y.fin = {}
 
 Init ==
-  \E A0 \in Auts({0, 1}), B0 \in Auts({2, 3}) :
+  \E A0 \in Auts({0, 1}), B0 \in BUniverse :
     LET At == Trim(A0)  Bt == Trim(B0)  LP == LeafPairs(At, Bt) IN
     /\ A = At /\ B = Bt /\ cur = <<>> /\ todo = {}
     /\ IF Cardinality(LeafSyms(Bt)) < Cardinality(LeafSyms(At)) THEN verdict = "F" /\ processed = {} /\ next = {}
@@ -55,7 +62,7 @@ Pick ==
   /\ verdict = "run" /\ cur = <<>> /\ next # {}
   /\ \E p \in next :
        /\ cur' = p /\ next' = next \ {p}
-       /\ todo' = UNION {{<<r, j>> : j \in {i \in 1..Len(r[2]) : r[2][i] = p[1]}} : r \in A.rules}
+       /\ todo' = UNION {{<<r, j>> : j \in {i \in 1..Len(r[2]) : r[2][i] = p[1] /\ (FirstPosOnly => \A k \in 1..(i - 1) : r[2][k] # p[1])}} : r \in A.rules}
   /\ UNCHANGED <<A, B, processed, verdict>>
 
 \* the macro-state tuples for rule r with cur fixed at position j
